@@ -47,6 +47,7 @@ Record InvR (s : state) : Prop := {
   R9 : forall cs, st_reg s cs = Registered -> In cs (st_list s);
   R10 : forall t cs, t < st_n s -> reg_of (pcof s t) = Some cs -> cached_pc (pcof s t) = true -> st_cache s cs <> None;
   R11 : forall t l, t < st_n s -> walk_of (pcof s t) = Some l -> exists vis, st_list s = vis ++ l;
+  R12 : forall cs, st_reg s cs = Registering -> exists t, t < st_n s /\ reg_of (pcof s t) = Some cs;
   CW : forall c, st_cellw s c = true -> exists t, t < st_n s /\ pc_cellw (pcof s t) = Some c
 }.
 
@@ -61,7 +62,7 @@ Proof.
   intros W s t s' IL IR H.
   destruct (step_frame _ _ _ _ H) as [Hlt0 [Hn Hoth]].
   assert (Hpo : forall t', t' <> t -> pcof s' t' = pcof s t') by (intros; unfold pcof; rewrite Hoth; auto).
-  destruct IR as [r1 r1u r2 r3 r4a r4b r5 r6 r7 r8 r9 r10 r11 cw].
+  destruct IR as [r1 r1u r2 r3 r4a r4b r5 r6 r7 r8 r9 r10 r11 r12 cw].
   assert (Hsame : forall t' cs, t' < st_n s -> reg_of (pcof s t') = Some cs -> reg_of (pcof s t) = Some cs -> t' = t)
     by (intros; eapply r1u; eauto).
   (* facts about the moving thread, to be specialised after inversion *)
@@ -71,11 +72,11 @@ Proof.
   constructor; rewrite ?Hn.
   (* R1 *)
   - intros u cs Hu. destruct (Nat.eq_dec u t) as [->|Hne]; [|rewrite Hpo by auto].
-    + clear Hpo. revert r1t. unfold pcof. step_inv H; self; rewrite ?Hpc; cbn [reg_of]; intros r1t E; try discriminate E;
+    + clear Hpo. revert r1t. unfold pcof. try clear r1; try clear r1u; try clear r2; try clear r3; try clear r4a; try clear r4b; try clear r5; try clear r6; try clear r7; try clear r8; try clear r9; try clear r10; try clear r11; try clear r12; try clear cw; try clear IL; step_inv H; self; rewrite ?Hpc; cbn [reg_of]; intros r1t E; try discriminate E;
         try (inversion E; subst; clear E); rewrite ?upd_same; auto.
     + intros E. pose proof (r1 u cs Hu E) as Hr. revert Hr. clear Hpo.
       pose proof (fun H1 => Hsame u cs Hu E H1) as Hs. revert Hs. unfold pcof.
-      step_inv H; self; rewrite ?Hpc; cbn [reg_of]; auto; intros Hs Hr; upd_cases; auto; try congruence.
+      try clear r1; try clear r1u; try clear r2; try clear r3; try clear r4a; try clear r4b; try clear r5; try clear r6; try clear r7; try clear r8; try clear r9; try clear r10; try clear r11; try clear r12; try clear cw; try clear IL; step_inv H; self; rewrite ?Hpc; cbn [reg_of]; auto; intros Hs Hr; upd_cases; auto; try congruence.
       exfalso. apply Hne. apply Hs. reflexivity.
   (* R1u *)
   - intros t1 t2 cs H1 H2.
@@ -83,48 +84,48 @@ Proof.
       rewrite ?(Hpo t1), ?(Hpo t2) by auto; eauto.
     + intros E1 E2. pose proof (r1 t2 cs H2 E2) as Hr. pose proof (fun H1 => Hsame t2 cs H2 E2 H1) as Hs.
       symmetry. revert E1 Hr Hs. clear Hpo. unfold pcof.
-      step_inv H; self; rewrite ?Hpc; cbn [reg_of]; intros E1; try discriminate E1; inversion E1; subst; intros Hr Hs; auto; congruence.
+      try clear r1; try clear r1u; try clear r2; try clear r3; try clear r4a; try clear r4b; try clear r5; try clear r6; try clear r7; try clear r8; try clear r9; try clear r10; try clear r11; try clear r12; try clear cw; try clear IL; step_inv H; self; rewrite ?Hpc; cbn [reg_of]; intros E1; try discriminate E1; inversion E1; subst; intros Hr Hs; auto; congruence.
     + intros E2 E1. pose proof (r1 t1 cs H1 E2) as Hr. pose proof (fun H1' => Hsame t1 cs H1 E2 H1') as Hs.
       revert E1 Hr Hs. clear Hpo. unfold pcof.
-      step_inv H; self; rewrite ?Hpc; cbn [reg_of]; intros E1; try discriminate E1; inversion E1; subst; intros Hr Hs; auto; congruence.
+      try clear r1; try clear r1u; try clear r2; try clear r3; try clear r4a; try clear r4b; try clear r5; try clear r6; try clear r7; try clear r8; try clear r9; try clear r10; try clear r11; try clear r12; try clear cw; try clear IL; step_inv H; self; rewrite ?Hpc; cbn [reg_of]; intros E1; try discriminate E1; inversion E1; subst; intros Hr Hs; auto; congruence.
   (* R2 *)
   - intros cs. pose proof (r2 cs) as Hr. revert Hr r1t r4at r10t r11t. clear Hpo. unfold pcof.
-    step_inv H; self; rewrite ?Hpc; cbn [reg_of pushed cached_pc walk_of]; auto; intros Hr r1t r4at r10t r11t E; upd_cases; try discriminate E; auto;
+    try clear r1; try clear r1u; try clear r2; try clear r3; try clear r4a; try clear r4b; try clear r5; try clear r6; try clear r7; try clear r8; try clear r9; try clear r10; try clear r11; try clear r12; try clear cw; try clear IL; step_inv H; self; rewrite ?Hpc; cbn [reg_of pushed cached_pc walk_of]; auto; intros Hr r1t r4at r10t r11t E; upd_cases; try discriminate E; auto;
       try (specialize (r1t _ Hlt0 eq_refl); congruence).
     + destruct (Hr E) as [Hr1 Hr2]. split; auto. intros [->|Hin]; auto.
       specialize (r1t _ Hlt0 eq_refl). congruence.
     + exfalso. destruct (r11t _ Hlt0 eq_refl) as [vis Hv]. destruct (Hr E) as [Hr1 _]. apply Hr1. rewrite Hv.
       apply in_or_app. right. left. reflexivity.
   (* R3 *)
-  - revert r4at. clear Hpo. unfold pcof. step_inv H; self; rewrite ?Hpc; cbn [reg_of pushed]; auto.
-    intros r4at. constructor; auto.
+  - revert r4at r3. clear Hpo. unfold pcof. try clear r1; try clear r1u; try clear r2; try clear r4a; try clear r4b; try clear r5; try clear r6; try clear r7; try clear r8; try clear r9; try clear r10; try clear r11; try clear r12; try clear cw; try clear IL; step_inv H; self; rewrite ?Hpc; cbn [reg_of pushed]; intros r4at r3; auto.
+    constructor; auto.
   (* R4a *)
   - intros u cs Hu. destruct (Nat.eq_dec u t) as [->|Hne]; [|rewrite Hpo by auto].
     + clear Hpo. pose proof (r2 cs) as Hr2. revert r4at Hr2. unfold pcof.
-      step_inv H; self; rewrite ?Hpc; cbn [reg_of pushed]; intros r4at Hr2 E; try discriminate E;
+      try clear r1; try clear r1u; try clear r2; try clear r3; try clear r4a; try clear r4b; try clear r5; try clear r6; try clear r7; try clear r8; try clear r9; try clear r10; try clear r11; try clear r12; try clear cw; try clear IL; step_inv H; self; rewrite ?Hpc; cbn [reg_of pushed]; intros r4at Hr2 E; try discriminate E;
         try (inversion E; subst; clear E); intros E2; try discriminate E2; auto.
       apply Hr2. assumption.
     + intros E P. pose proof (r4a u cs Hu E P) as Hr. pose proof (fun H1 => Hsame u cs Hu E H1) as Hs. revert Hr Hs. clear Hpo.
-      unfold pcof. step_inv H; self; rewrite ?Hpc; cbn [reg_of]; auto.
+      unfold pcof. try clear r1; try clear r1u; try clear r2; try clear r3; try clear r4a; try clear r4b; try clear r5; try clear r6; try clear r7; try clear r8; try clear r9; try clear r10; try clear r11; try clear r12; try clear cw; try clear IL; step_inv H; self; rewrite ?Hpc; cbn [reg_of]; auto.
       intros Hr Hs [->|Hin]; auto.
   (* R4b *)
   - intros u cs Hu. destruct (Nat.eq_dec u t) as [->|Hne]; [|rewrite Hpo by auto].
     + clear Hpo. revert r4bt. unfold pcof.
-      step_inv H; self; rewrite ?Hpc; cbn [reg_of pushed]; intros r4bt E; try discriminate E;
+      try clear r1; try clear r1u; try clear r2; try clear r3; try clear r4a; try clear r4b; try clear r5; try clear r6; try clear r7; try clear r8; try clear r9; try clear r10; try clear r11; try clear r12; try clear cw; try clear IL; step_inv H; self; rewrite ?Hpc; cbn [reg_of pushed]; intros r4bt E; try discriminate E;
         try (inversion E; subst; clear E); intros E2; try discriminate E2; auto.
       left. reflexivity.
     + intros E P. pose proof (r4b u cs Hu E P) as Hr. revert Hr. clear Hpo.
-      unfold pcof. step_inv H; self; auto. intros; right; auto.
+      unfold pcof. try clear r1; try clear r1u; try clear r2; try clear r3; try clear r4a; try clear r4b; try clear r5; try clear r6; try clear r7; try clear r8; try clear r9; try clear r10; try clear r11; try clear r12; try clear cw; try clear IL; step_inv H; self; auto. intros; right; auto.
   (* R5 *)
   - intros u cs l0 Hu. destruct (Nat.eq_dec u t) as [->|Hne]; [|rewrite Hpo by auto].
     + clear Hpo. revert r5t. unfold pcof.
-      step_inv H; self; rewrite ?Hpc; intros r5t E; try discriminate E; inversion E; subst; try (exists []; reflexivity); eauto.
+      try clear r1; try clear r1u; try clear r2; try clear r3; try clear r4a; try clear r4b; try clear r5; try clear r6; try clear r7; try clear r8; try clear r9; try clear r10; try clear r11; try clear r12; try clear cw; try clear IL; step_inv H; self; rewrite ?Hpc; intros r5t E; try discriminate E; inversion E; subst; try (exists []; reflexivity); eauto.
     + intros E. destruct (r5 u cs l0 Hu E) as [pre Hp]. revert Hp. clear Hpo.
-      unfold pcof. step_inv H; self; eauto.
+      unfold pcof. try clear r1; try clear r1u; try clear r2; try clear r3; try clear r4a; try clear r4b; try clear r5; try clear r6; try clear r7; try clear r8; try clear r9; try clear r10; try clear r11; try clear r12; try clear cw; try clear IL; step_inv H; self; eauto.
       intros ->. eexists (_ :: pre). reflexivity.
   (* R6 *)
   - revert r4at r6. clear Hpo. unfold no_corrupt, pcof.
-    step_inv H; self; rewrite ?Hpc; cbn [reg_of pushed]; auto; intros r4at r6 u cs'; simpl; intros Hin;
+    try clear r1; try clear r1u; try clear r2; try clear r3; try clear r4a; try clear r4b; try clear r5; try clear r6; try clear r7; try clear r8; try clear r9; try clear r10; try clear r11; try clear r12; try clear cw; try clear IL; step_inv H; self; rewrite ?Hpc; cbn [reg_of pushed]; auto; intros r4at r6 u cs'; simpl; intros Hin;
       repeat match goal with Hin : _ \/ _ |- _ => destruct Hin as [Hin|Hin]; try discriminate Hin end;
       try (eapply r6; eassumption).
     all: inversion Hin; subst; eapply r4at; eauto; apply mem_In; assumption.
@@ -134,7 +135,7 @@ Proof.
                 In cs (st_list s') \/ exists t', t' < st_n s /\ pushing (pcof s' t') = Some cs).
     { intros u Hu Hp [Hne|[Hp'|Hin]]; auto; [right; exists u; rewrite Hpo by auto; auto | right; eauto]. }
     pose proof (r7 cs) as Hr. revert Hc Hr G. clear Hpo. unfold pcof.
-    step_inv H; self; rewrite ?Hpc; cbn [pushing].
+    try clear r1; try clear r1u; try clear r2; try clear r3; try clear r4a; try clear r4b; try clear r5; try clear r6; try clear r7; try clear r8; try clear r9; try clear r10; try clear r11; try clear r12; try clear cw; try clear IL; step_inv H; self; rewrite ?Hpc; cbn [pushing].
     all: intros Hc Hr G; upd_cases.
     all: try solve [ destruct (Hr Hc) as [Hin|[u [Hu Hp]]]; [left; simpl; auto | apply (G u Hu Hp);
                      destruct (Nat.eq_dec u t) as [->|]; auto; rewrite Hpc in Hp; cbn [pushing] in Hp; try discriminate Hp;
@@ -143,36 +144,48 @@ Proof.
     all: try solve [ left; destruct (r11t _ Hlt0 eq_refl) as [vis ->]; apply in_or_app; right; left; reflexivity ].
   (* R8 *)
   - intros cs. pose proof (r8 cs) as Hr. revert Hr r10t. clear Hpo. unfold pcof.
-    step_inv H; self; rewrite ?Hpc; cbn [reg_of cached_pc]; auto; intros Hr r10t; upd_cases; try discriminate; auto.
+    try clear r1; try clear r1u; try clear r2; try clear r3; try clear r4a; try clear r4b; try clear r5; try clear r6; try clear r7; try clear r8; try clear r9; try clear r10; try clear r11; try clear r12; try clear cw; try clear IL; step_inv H; self; rewrite ?Hpc; cbn [reg_of cached_pc]; auto; intros Hr r10t; upd_cases; try discriminate; auto.
     intros [->|Hin]; auto.
   (* R9 *)
   - intros cs. pose proof (r9 cs) as Hr. revert Hr r4bt. clear Hpo. unfold pcof.
-    step_inv H; self; rewrite ?Hpc; cbn [reg_of pushed]; auto; intros Hr r4bt; upd_cases; try discriminate; auto.
+    try clear r1; try clear r1u; try clear r2; try clear r3; try clear r4a; try clear r4b; try clear r5; try clear r6; try clear r7; try clear r8; try clear r9; try clear r10; try clear r11; try clear r12; try clear cw; try clear IL; step_inv H; self; rewrite ?Hpc; cbn [reg_of pushed]; auto; intros Hr r4bt; upd_cases; try discriminate; auto.
     intros E. right. auto.
   (* R10 *)
   - intros u cs Hu. destruct (Nat.eq_dec u t) as [->|Hne]; [|rewrite Hpo by auto].
     + clear Hpo. revert r10t. unfold pcof.
-      step_inv H; self; rewrite ?Hpc; cbn [reg_of cached_pc]; intros r10t E; try discriminate E;
+      try clear r1; try clear r1u; try clear r2; try clear r3; try clear r4a; try clear r4b; try clear r5; try clear r6; try clear r7; try clear r8; try clear r9; try clear r10; try clear r11; try clear r12; try clear cw; try clear IL; step_inv H; self; rewrite ?Hpc; cbn [reg_of cached_pc]; intros r10t E; try discriminate E;
         try (inversion E; subst; clear E); intros E2; try discriminate E2; rewrite ?upd_same; auto; discriminate.
     + intros E P. pose proof (r10 u cs Hu E P) as Hr. revert Hr. clear Hpo.
-      unfold pcof. step_inv H; self; auto; intros Hr; upd_cases; auto; discriminate.
+      unfold pcof. try clear r1; try clear r1u; try clear r2; try clear r3; try clear r4a; try clear r4b; try clear r5; try clear r6; try clear r7; try clear r8; try clear r9; try clear r10; try clear r11; try clear r12; try clear cw; try clear IL; step_inv H; self; auto; intros Hr; upd_cases; auto; discriminate.
   (* R11 *)
   - intros u l Hu. destruct (Nat.eq_dec u t) as [->|Hne]; [|rewrite Hpo by auto].
     + clear Hpo. revert r11t. unfold pcof.
-      step_inv H; rewrite ?Hpc; cbn [walk_of]; intros r11t E; try discriminate E; inversion E; subst; clear E;
+      try clear r1; try clear r1u; try clear r2; try clear r3; try clear r4a; try clear r4b; try clear r5; try clear r6; try clear r7; try clear r8; try clear r9; try clear r10; try clear r11; try clear r12; try clear cw; try clear IL; step_inv H; rewrite ?Hpc; cbn [walk_of]; intros r11t E; try discriminate E; inversion E; subst; clear E;
         try (apply (r11t _ Hlt0 eq_refl)).
       * exists []. reflexivity.
       * destruct (r11t _ Hlt0 eq_refl) as [vis Hv]. exists (vis ++ [cs]). rewrite <- app_assoc. exact Hv.
     + intros E. destruct (r11 u l Hu E) as [vis Hv]. revert Hv. clear Hpo.
-      unfold pcof. step_inv H; eauto.
+      unfold pcof. try clear r1; try clear r1u; try clear r2; try clear r3; try clear r4a; try clear r4b; try clear r5; try clear r6; try clear r7; try clear r8; try clear r9; try clear r10; try clear r11; try clear r12; try clear cw; try clear IL; step_inv H; eauto.
       intros ->. eexists (_ :: vis). reflexivity.
+  (* R12 *)
+  - intros cs.
+    assert (G : forall u, u < st_n s -> reg_of (pcof s u) = Some cs -> (u <> t \/ reg_of (pcof s' t) = Some cs) ->
+                exists t', t' < st_n s /\ reg_of (pcof s' t') = Some cs).
+    { intros u Hu Hp [Hne|Hp']; [exists u; rewrite Hpo by auto; auto | eauto]. }
+    pose proof (r12 cs) as Hr. revert Hr G. clear Hpo. unfold pcof.
+    try clear r1; try clear r1u; try clear r2; try clear r3; try clear r4a; try clear r4b; try clear r5; try clear r6; try clear r7; try clear r8; try clear r9; try clear r10; try clear r11; try clear r12; try clear cw; try clear IL; step_inv H; self; rewrite ?Hpc; cbn [reg_of].
+    all: intros Hr G Hc; upd_cases; try discriminate Hc.
+    all: try solve [ exists t; split; auto; rewrite upd_same; reflexivity ].
+    all: destruct (Hr Hc) as [u [Hu Hp]]; apply (G u Hu Hp);
+         destruct (Nat.eq_dec u t) as [->|]; auto; rewrite Hpc in Hp; cbn [reg_of] in Hp; try discriminate Hp;
+         inversion Hp; subst; auto; congruence.
   (* CW *)
   - intros c.
     assert (G : forall u, u < st_n s -> pc_cellw (pcof s u) = Some c -> (u <> t \/ pc_cellw (pcof s' t) = Some c) ->
                 exists t', t' < st_n s /\ pc_cellw (pcof s' t') = Some c).
     { intros u Hu Hp [Hne|Hp']; [exists u; rewrite Hpo by auto; auto | eauto]. }
     pose proof (cw c) as Hr. revert Hr G. clear Hpo. unfold pcof.
-    step_inv H; self; rewrite ?Hpc; cbn [pc_cellw].
+    try clear r1; try clear r1u; try clear r2; try clear r3; try clear r4a; try clear r4b; try clear r5; try clear r6; try clear r7; try clear r8; try clear r9; try clear r10; try clear r11; try clear r12; try clear cw; try clear IL; step_inv H; self; rewrite ?Hpc; cbn [pc_cellw].
     all: intros Hr G Hc; upd_cases; try discriminate Hc.
     all: try solve [ exists t; split; auto; rewrite upd_same; reflexivity ].
     all: destruct (Hr Hc) as [u [Hu Hp]]; apply (G u Hu Hp);
